@@ -29,6 +29,9 @@ pub const ROOT_PROMO: &str = "n1n5/PPPk4/8/8/8/8/4Kppp/5N1N b - - 0 1";
 pub const ROOT_RIGHTS: &str = "r3k2r/1P4P1/8/8/8/8/1p4p1/R3K2R w KQkq - 0 1";
 /// material ladder: forced-capture-rich position straddling the endgame threshold (sum |psq| close to 43000)
 pub const ROOT_LADDER: &str = "3rk3/3r4/8/8/8/8/3Q4/3RK3 w - - 0 1";
+/// the same idea one pawn pair and one knight pair richer: sum |psq| = 43210, i.e. still in the opening phase, and one
+/// capture (Qxd7, Rxd7 ...) takes it below the endgame threshold: the phase switch happens inside the explored lines
+pub const ROOT_LADDER_OPEN: &str = "2nrk3/3r1p2/8/8/8/8/3Q1P2/2NRK3 w - - 0 1";
 pub const ROOT_KRK: &str = "8/8/8/4k3/8/8/8/R3K3 w - - 0 1";
 pub const ROOT_KQK: &str = "8/8/8/4k3/8/8/8/Q3K3 w - - 0 1";
 pub const ROOT_KPK: &str = "8/8/8/4k3/8/8/4P3/4K3 w - - 0 1";
@@ -55,6 +58,7 @@ pub fn core_spaces(tier: &str, seed: i64, heavy: bool) -> Vec<Space> {
         }
         v.push(Space::all(Universe::UP));
         v.push(Space::all(Universe::UEA));
+        v.push(Space::all(Universe::UCE));
         v.push(Space::all(Universe::UCK { extras: 0 }));
         if heavy {
             v.push(Space::slice(Universe::UCK { extras: 1 }, 4, off));
@@ -75,6 +79,7 @@ pub fn core_spaces(tier: &str, seed: i64, heavy: bool) -> Vec<Space> {
         v.push(Space::bfs("promo", ROOT_PROMO, 3));
         v.push(Space::bfs("rights", ROOT_RIGHTS, 3));
         v.push(Space::bfs("ladder", ROOT_LADDER, 4));
+        v.push(Space::bfs("ladder-open", ROOT_LADDER_OPEN, 3));
         v.push(Space::closure("KRk", ROOT_KRK));
     } else {
         v.push(Space::all(Universe::U2));
@@ -90,6 +95,7 @@ pub fn core_spaces(tier: &str, seed: i64, heavy: bool) -> Vec<Space> {
         v.push(Space::all(Universe::UE { extras: 1, capturer_files: Some(vec![0, 1, 3, 4, 6, 7]), slider_only: false }));
         v.push(Space::all(Universe::UP));
         v.push(Space::all(Universe::UEA));
+        v.push(Space::all(Universe::UCE));
         v.push(Space::all(Universe::UCK { extras: 0 }));
         v.push(Space::all(Universe::UCK { extras: 1 }));
         for (a, b) in [(code(P, true), code(P, false)), (code(Q, true), code(R, false)), (code(R, true), code(B, false)), (code(P, true), code(N, false))] {
@@ -108,6 +114,7 @@ pub fn core_spaces(tier: &str, seed: i64, heavy: bool) -> Vec<Space> {
         v.push(Space::bfs("promo", ROOT_PROMO, 4));
         v.push(Space::bfs("rights", ROOT_RIGHTS, 4));
         v.push(Space::bfs("ladder", ROOT_LADDER, 6));
+        v.push(Space::bfs("ladder-open", ROOT_LADDER_OPEN, 5));
         v.push(Space::closure("KRk", ROOT_KRK));
         v.push(Space::closure("KQk", ROOT_KQK));
         v.push(Space::closure("KPk", ROOT_KPK));
